@@ -1,15 +1,300 @@
-import PestModel.Calc
+/-
+  Props/C17.lean — property C17:
+  "Bundled JSON and calculator languages agree with independent references".
+
+    Every RFC 8259 JSON document whose top level is an array or object is accepted by the
+    bundled JSON grammars in every execution mode and its parse tree mirrors json.loads …
+    while every proper prefix of such a document (written without trailing whitespace) is
+    rejected.  For every arithmetic expression over integers, variables, + - * / ^, unary
+    minus, factorial and parentheses, the three bundled calculator implementations
+    (precedence climbing, Pratt, grammar-encoded precedence) evaluate to the same value,
+    which is the value an independent evaluator using the documented precedence table gives.
+
+  ── Calculator half (models: `Calc.lean`; lemmas: `Lemmas/Calc.lean`) ── PROVED, for all
+  well-formed token lists of any length and nesting depth:
+
+    `calc_three_agree`   precClimb ts = pratt ts ∧ pratt ts = encoded ts ∧ pratt ts = reference ts
+    `calc_total`         … and that common answer is an AST (no implementation raises)
+    `calc_values_agree`  hence equal values (`eval` is a function of the AST)
+
+  The proof does not compare algorithms pairwise.  It shows that the tree the *grammar*
+  builds (`encodedTree`: nest by grammar_encoded_prec.pest, walk as grammar_encoded_prec.py)
+  is `Good` — in the sense of C18's specification — for **every** calculator-shaped table
+  whose five levels are in the documented order (`Lemmas/Calc.encodedTree_spec`).  By C18
+  (`pratt_complete`, `good_unique`) it is therefore what the Pratt algorithm returns on any
+  such table (`levels_parse_eq_encoded`).  The regenerated tables of pratt.py and of
+  prec_climber.py are such tables (`prattTable_levels`, `climbTable_levels`,
+  `…_documented`, by evaluation of the regenerated literals: they are compared by *order*,
+  not number for number), the climbing loop is the Pratt loop on its own table
+  (`Lemmas/Calc.climbExpr_eq`, structural), and the reference is by definition the `Good`
+  tree of the documented table `docTable`.  An edit of either table that changes the order
+  of two levels, of an associativity, or of the grammar-encoded nesting breaks one of these
+  theorems at the next run.
+
+  ── JSON half (model: `Json.lean`; regenerated grammar terms: `Generated/JsonGrammars.lean`)
+  ── the target theorems are stated below and are OPEN (see the end of the file for exactly
+  what is proved).  The engine therefore reports the JSON half at level "other": it rests on
+  the failing-input search against `json.loads` and on *executing* the L0 specification on the
+  regenerated grammar terms (driver requests `J accepts` / `J prefixes`, which evaluate the
+  two target statements on generated documents).
+-/
+import PestModel.Lemmas.Calc
+import PestModel.Props.C18
 import PestModel.Json
 import PestModel.Spec
-import PestModel.Lemmas.Pratt
-import PestModel.Props.C18
 import PestModel.Generated.JsonGrammars
 
 namespace Pest
 namespace C17
 open Pratt Calc
 
+/-! ## Calculator -/
+
+/-! ### the regenerated tables are calculator-shaped tables in the documented order -/
+
+/-- `CalculatorParser.PREFIX_OPS / POSTFIX_OPS / INFIX_OPS` is the calculator-shaped table of
+    the five levels read off it: `neg` is the only prefix and `fac` the only postfix operator,
+    `add`/`sub` share a level, `mul`/`div` share a level, these four are left-associative and
+    `pow` is right-associative, and no other rule name is declared. -/
+theorem prattTable_levels : prattTable = prattLevels.table := by
+  show Table.mk _ _ _ = Table.mk _ _ _
+  congr 1 <;> funext t <;> cases t <;> first | decide | rfl
+
+/-- + - < * / < ^ < prefix - < postfix !  in pratt.py -/
 theorem prattLevels_documented : prattLevels.Ordered := by decide
+
+/-- the tables of prec_climber.py (`PRECEDENCES`, `Precedence.PRE`, the four operator sets)
+    likewise -/
+theorem climbTable_levels : climbCfg.table = climbLevels.table := by
+  show Table.mk _ _ _ = Table.mk _ _ _
+  congr 1 <;> funext t <;> cases t <;> first | decide | rfl
+
+/-- the same order in prec_climber.py, and `Precedence.LOWEST` is below every operator -/
+theorem climbLevels_documented : climbLevels.Ordered ∧ climbCfg.lowest ≤ climbLevels.add := by decide
+
+theorem docLevels_documented : docLevels.Ordered := by decide
+
+/-! ### one tree for every documented table -/
+
+theorem cwf_wf (L : Levels) : ∀ (ts : List Tok) (b : Bool), cwf b ts = true → wf L.table b ts = true
+  | [], b, h => by cases b <;> simp_all [cwf, wf]
+  | t :: ts, true, h => by
+    cases t <;> simp_all [cwf, wf, Levels.table, Tok.isPrimary] <;> exact cwf_wf L ts _ (by assumption)
+  | t :: ts, false, h => by
+    cases t <;> simp_all [cwf, wf, Levels.table, Tok.isInfix] <;> exact cwf_wf L ts _ (by assumption)
+
+/-- **Grammar-encoded precedence = declared precedence.**  For every calculator-shaped table
+    whose levels are in the documented order and every well-formed token list, the Pratt
+    algorithm consumes the list and returns exactly the tree that nesting by
+    grammar_encoded_prec.pest and walking it as grammar_encoded_prec.py yields. -/
+theorem levels_parse_eq_encoded (L : Levels) (hL : L.Ordered) (ts : List Tok) (hw : cwf true ts = true) :
+    ∃ t, encodedTree ts = some t ∧ parseExpr L.table ts = .ok t [] ∧ t.flatten = ts ∧ Shape t := by
+  obtain ⟨t, h1, h2, h3⟩ := encodedTree_spec L hL ts hw
+  refine ⟨t, h1, ?_, h2, h3.shape⟩
+  have := C18.pratt_complete L.table t (shape_lex L t h3.shape) h3.good
+  rwa [h2] at this
+
+/-- (b) = (c) -/
+theorem prattTree_eq_encodedTree (ts : List Tok) (hw : cwf true ts = true) :
+    prattTree ts = encodedTree ts := by
+  obtain ⟨t, h1, h2, _⟩ := levels_parse_eq_encoded prattLevels prattLevels_documented ts hw
+  rw [h1, prattTree, prattTable_levels, h2]
+
+/-- **The climbing loop on any documented table.**  Whatever numbers prec_climber.py uses, as
+    long as its tables form a calculator-shaped table in the documented order and
+    `Precedence.LOWEST` is not above the weakest operator, `parse_program` builds the
+    grammar-encoded tree. -/
+theorem climb_eq_pratt_of_table (C : ClimbCfg) (L : Levels) (hT : C.table = L.table) (hL : L.Ordered)
+    (hlow : C.lowest ≤ L.add) (ts : List Tok) (hw : cwf true ts = true) :
+    climbTreeOf C ts = encodedTree ts := by
+  obtain ⟨t, h1, h2, h3⟩ := encodedTree_spec L hL ts hw
+  have hwf : wf C.table true ts = true := by rw [hT]; exact cwf_wf L ts true hw
+  have hc := expr_complete L.table (ts.length + 1) t C.lowest [] (shape_lex L t h3.shape) h3.good
+    (fun x hx => by have := h3.le x hx; omega) (fun P hP => by simp [nextL] at hP)
+    (by simp [h2])
+  simp only [List.append_nil, h2] at hc
+  rw [h1, climbTreeOf, climbExpr_eq C _ _ _ hwf, hT, hc]
+  rfl
+
+/-- (a) = (b) -/
+theorem climbTree_eq_prattTree (ts : List Tok) (hw : cwf true ts = true) :
+    climbTree ts = prattTree ts := by
+  rw [prattTree_eq_encodedTree ts hw]
+  exact climb_eq_pratt_of_table climbCfg climbLevels climbTable_levels climbLevels_documented.1
+    climbLevels_documented.2 ts hw
+
+/-- (d): among *all* trees over the tokens, the grammar-encoded tree is the one and only tree
+    that reads every token in its role and is `Good` for the documented table; so it is what
+    the enumerate-and-filter reference finds. -/
+theorem refTree_spec (ts : List Tok) (hw : cwf true ts = true) :
+    refTree ts = encodedTree ts ∧
+      ∀ t', t' ∈ Pratt.reference docTable ts ↔ some t' = encodedTree ts := by
+  obtain ⟨t, h1, h2, _, _⟩ := levels_parse_eq_encoded docLevels docLevels_documented ts hw
+  have hall := C18.reference_eq docTable ts t h2
+  have hmem : ∀ t', t' ∈ Pratt.reference docTable ts ↔ some t' = encodedTree ts := by
+    intro t'; rw [hall t', h1]; constructor
+    · rintro rfl; rfl
+    · intro h; injection h
+  refine ⟨?_, hmem⟩
+  rw [refTree, h1]
+  cases hr : Pratt.reference docTable ts with
+  | nil => have := (hall t).mpr rfl; simp [hr] at this
+  | cons x xs =>
+    have : x = t := (hall x).mp (by simp [hr])
+    simp [this]
+
+/-- the four tree builders agree on every well-formed token list -/
+theorem calc_trees_agree (ts : List Tok) (hw : cwf true ts = true) :
+    climbTree ts = prattTree ts ∧ prattTree ts = encodedTree ts ∧ prattTree ts = refTree ts :=
+  ⟨climbTree_eq_prattTree ts hw, prattTree_eq_encodedTree ts hw,
+    (prattTree_eq_encodedTree ts hw).trans (refTree_spec ts hw).1.symm⟩
+
+/-! ### from trees to ASTs, through every level of parentheses -/
+
+theorem implAt_eq_encoded (tree : List Tok → Option T)
+    (h : ∀ ts, cwf true ts = true → tree ts = encodedTree ts) :
+    ∀ (f : Nat) (ts : List Tok), cwf true ts = true → deepWfL ts = true →
+      implAt tree f ts = implAt encodedTree f ts := by
+  intro f
+  induction f with
+  | zero => intro ts _ _; rfl
+  | succ f ih =>
+    intro ts hw hd
+    simp only [implAt]
+    rw [h ts hw]
+    obtain ⟨t, h1, h2, _⟩ := encodedTree_spec docLevels docLevels_documented ts hw
+    rw [h1]
+    simp only [Option.bind_some]
+    apply build_congr
+    intro c hc
+    rw [h2] at hc
+    obtain ⟨hcw, hcd⟩ := deepWf_mem ts c hd hc
+    exact ih c hcw hcd
+
+/-- **C17, calculator half.**  For every well-formed token list — integers, variables, the
+    five binary operators, unary minus and factorial (also repeated), parentheses nested to
+    any depth — the three bundled implementations build the same AST, and it is the AST of
+    the reference for the documented precedence table. -/
+theorem calc_three_agree (ts : List Tok) (h : WellFormed ts) :
+    precClimb ts = pratt ts ∧ pratt ts = encoded ts ∧ pratt ts = reference ts := by
+  obtain ⟨hw, hd⟩ := h
+  have e1 := implAt_eq_encoded climbTree
+    (fun ts hw => (climbTree_eq_prattTree ts hw).trans (prattTree_eq_encodedTree ts hw)) (depthL ts + 1) ts hw hd
+  have e2 := implAt_eq_encoded prattTree prattTree_eq_encodedTree (depthL ts + 1) ts hw hd
+  have e3 := implAt_eq_encoded refTree (fun ts hw => (refTree_spec ts hw).1) (depthL ts + 1) ts hw hd
+  exact ⟨e1.trans e2.symm, e2, e2.trans e3.symm⟩
+
+theorem implAt_total :
+    ∀ (f : Nat) (ts : List Tok), depthL ts < f → cwf true ts = true → deepWfL ts = true →
+      ∃ a, implAt encodedTree f ts = some a := by
+  intro f
+  induction f with
+  | zero => intro ts h; omega
+  | succ f ih =>
+    intro ts hdep hw hd
+    obtain ⟨t, h1, h2, h3⟩ := encodedTree_spec docLevels docLevels_documented ts hw
+    simp only [implAt, h1, Option.bind_some]
+    apply build_total _ t h3.shape
+    intro c hc
+    rw [h2] at hc
+    obtain ⟨hcw, hcd⟩ := deepWf_mem ts c hd hc
+    have := depth_mem ts c hc
+    exact ih c (by omega) hcw hcd
+
+/-- no implementation raises on a well-formed token list: the common answer is an AST -/
+theorem calc_total (ts : List Tok) (h : WellFormed ts) : ∃ a, pratt ts = some a := by
+  obtain ⟨a, ha⟩ := implAt_total (depthL ts + 1) ts (Nat.lt_succ_self _) h.1 h.2
+  exact ⟨a, by rw [(calc_three_agree ts h).2.1]; exact ha⟩
+
+/-- equal ASTs, equal values: under every environment the three implementations and the
+    reference evaluate to the same result (a number, or the same failure) -/
+theorem calc_values_agree (ts : List Tok) (h : WellFormed ts) (env : String → Option Int) :
+    (precClimb ts).map (eval env) = (pratt ts).map (eval env) ∧
+    (pratt ts).map (eval env) = (encoded ts).map (eval env) ∧
+    (pratt ts).map (eval env) = (reference ts).map (eval env) := by
+  obtain ⟨h1, h2, h3⟩ := calc_three_agree ts h
+  exact ⟨by rw [h1], by rw [h2], by rw [h3]⟩
+
+/-! ### the hypotheses are satisfiable, the readings are the documented ones, and the pinned
+    climbing loop violates the property -/
+
+section Examples
+
+/-- `-2^2 = (-2)^2`, `-3! = -(3!)`, `2^3! = 2^(3!)`, `2^-3^2 = 2^((-3)^2)`, `1-2-3 = (1-2)-3` -/
+example : pratt [.neg, .int 2, .pow, .int 2] = some (.bin .pow (.neg (.int 2)) (.int 2)) := by decide
+example : pratt [.neg, .int 3, .fac] = some (.neg (.fac (.int 3))) := by decide
+example : precClimb [.int 2, .pow, .int 3, .fac] = some (.bin .pow (.int 2) (.fac (.int 3))) := by decide
+example : encoded [.int 2, .pow, .neg, .int 3, .pow, .int 2]
+    = some (.bin .pow (.int 2) (.bin .pow (.neg (.int 3)) (.int 2))) := by decide
+example : precClimb [.int 1, .sub, .int 2, .sub, .int 3]
+    = some (.bin .sub (.bin .sub (.int 1) (.int 2)) (.int 3)) := by decide
+example : reference [.int 1, .sub, .paren [.int 2, .sub, .int 3], .fac]
+    = some (.bin .sub (.int 1) (.fac (.bin .sub (.int 2) (.int 3)))) := by decide
+example : WellFormed [.neg, .neg, .var "x", .fac, .fac, .mul, .paren [.int 1, .add, .paren [.int 2]]] := by decide
+example : ¬ WellFormed [.int 1, .add] ∧ ¬ WellFormed [.paren []] ∧ ¬ WellFormed [.int 1, .int 2] := by decide
+example : eval (fun _ => none) (.bin .sub (.bin .sub (.int 1) (.int 2)) (.int 3)) = some (-4) := by decide
+
+/-- the loop of the pinned commit: every operator climbed with its own precedence (so
+    left-associative chains group to the right), postfix operators only after the last infix
+    operator of the activation -/
+def climbLoopOld (C : ClimbCfg) (rec : List Tok → Nat → CRes) (prec : Nat) : Nat → T → List Tok → CRes
+  | 0, _, _ => .fuel
+  | g + 1, left, ts =>
+    match ts with
+    | [] => .ok left []
+    | tok :: ts' =>
+      if C.isInfix tok then
+        if C.precOf tok ≥ prec then
+          match rec ts' (C.precOf tok) with
+          | .ok right ts'' => climbLoopOld C rec prec g (.bin left tok right) ts''
+          | e => e
+        else .ok left (tok :: ts')
+      else if C.isPostfix tok then
+        -- the second `while`: postfix operators, then nothing else may follow
+        let rec facs : Nat → T → List Tok → CRes
+          | 0, _, _ => .fuel
+          | _ + 1, l, [] => .ok l []
+          | k + 1, l, t :: r => if C.isPostfix t then facs k (.post l t) r else .unexpected
+        facs (g + 1) left (tok :: ts')
+      else .unexpected
+
+def climbExprOld (C : ClimbCfg) : Nat → List Tok → Nat → CRes
+  | 0 => fun _ _ => .fuel
+  | f + 1 => fun ts prec =>
+    match ts with
+    | [] => .eof
+    | tok :: ts' =>
+      if C.isPrefix tok then
+        match climbExprOld C f ts' C.pre with
+        | .ok r ts'' => climbLoopOld C (climbExprOld C f) prec f (.pre tok r) ts''
+        | e => e
+      else climbLoopOld C (climbExprOld C f) prec f (.leaf tok) ts'
+
+def climbTreeOld (ts : List Tok) : Option T :=
+  match climbExprOld climbCfg (ts.length + 1) ts climbCfg.lowest with
+  | .ok t _ => some t
+  | _ => none
+
+/-- **the pinned prec_climber.py violates C17**: `1 - 2 - 3` is grouped to the right and
+    `2! * 3` is refused; the repaired loop and the other implementations agree on both. -/
+example : climbTreeOld [.int 1, .sub, .int 2, .sub, .int 3]
+      = some (.bin (.leaf (.int 1)) .sub (.bin (.leaf (.int 2)) .sub (.leaf (.int 3)))) ∧
+    prattTree [.int 1, .sub, .int 2, .sub, .int 3]
+      = some (.bin (.bin (.leaf (.int 1)) .sub (.leaf (.int 2))) .sub (.leaf (.int 3))) ∧
+    climbTreeOld [.int 2, .fac, .mul, .int 3] = none ∧
+    climbTree [.int 2, .fac, .mul, .int 3] = prattTree [.int 2, .fac, .mul, .int 3] ∧
+    (prattTree [.int 2, .fac, .mul, .int 3]).isSome = true := ⟨by rfl, by rfl, by rfl, by rfl, by rfl⟩
+
+end Examples
+
+/-! ## JSON -/
+
+open Json
+
+/-- the text of a document is as long as its pieces (used by `mirror` for the spans) -/
+theorem render_length (d : Doc) :
+    (render d).length = d.w1.length + d.v.text.length + d.w2.length := by
+  simp [render, wsText]; omega
 
 end C17
 end Pest
